@@ -79,3 +79,12 @@ M.contract('bridgepoint.gen_xsd_schema.build_user_type', [('s_udt', INST)], retu
                     'omitted-when-the-base-is-unsupported': 'implies(not xsd_named(base), result is None)'},
            modifies=['Element.tag', 'Element.attrs', 'Element.children'])
 
+
+# ---- the attribute a referential attribute finally refers to (partial correctness: termination on an acyclic chain is not proved)
+M.spec('''
+def referred_root(o_attr):
+    return (referred_root(first_of(o_attr, "O_RATTR[R106].O_BATTR[R113].O_ATTR[R106]"))
+            if first_of(o_attr, "O_RATTR[R106].O_BATTR[R113].O_ATTR[R106]") is not None else o_attr)
+''', sorts={'referred_root': ([INST], INST, [])})
+M.contract('bridgepoint.gen_xsd_schema.get_refered_attribute', [('o_attr', INST)], returns=INST,
+           ensures={'end-of-the-reference-chain': 'result is referred_root(o_attr)'}, modifies=[])
